@@ -3010,6 +3010,20 @@ evhttp_make_request(struct evhttp_connection *evcon,
     struct evhttp_request *req,
     enum evhttp_cmd_type type, const char *uri)
 {
+	const unsigned char *up;
+
+	/* the request-target is written verbatim into the request line: it
+	 * must not be empty or contain whitespace or control characters */
+	for (up = (const unsigned char *)uri; *up != '\0'; ++up) {
+		if (*up <= 0x20 || *up == 0x7f)
+			break;
+	}
+	if (uri[0] == '\0' || *up != '\0') {
+		event_debug(("%s: illegal request target", __func__));
+		evhttp_request_free_auto(req);
+		return (-1);
+	}
+
 	/* We are making a request */
 	req->kind = EVHTTP_REQUEST;
 	req->type = type;
